@@ -80,6 +80,13 @@ func main() {
 		runChainWorker()
 		return
 	}
+	if name == "sysworker" {
+		lgw := logger.GetLogger("harness")
+		lgw.Logger.SetOutput(io.Discard)
+		lgw.Logger.SetLevel(logrus.PanicLevel)
+		runSysWorker()
+		return
+	}
 	if name == "gen" {
 		// regenerate Lean from Go source (translator, gen.go); exits 2 on anything it does not understand
 		runGen(os.Args[2:])
